@@ -158,10 +158,15 @@ def corpus_hash(scheme, rounds, variant=0):
         if scheme == "scram" and variant:
             kw["algs"] = "sha-1,md5"
         if scheme == "bcrypt" and variant:
-            kw["ident"] = {1: "2a", 2: "2y"}[variant]
+            kw["ident"] = {1: "2a", 2: "2y", 3: "2a"}[variant]
         if scheme == "phpass" and variant:
             kw["ident"] = "H"
-        _corpus[key] = h.using(**kw).hash(PW) if kw else h.hash(PW)
+        hs = h.using(**kw).hash(PW) if kw else h.hash(PW)
+        if scheme == "bcrypt" and variant == 3:
+            # a legacy $2a$ hash whose 22nd salt character carries stray padding bits (documented: such hashes are flagged for update)
+            b64 = "./ABCDEFGHIJKLMNOPQRSTUVWXYZabcdefghijklmnopqrstuvwxyz0123456789"
+            hs = hs[:28] + b64[b64.index(hs[28]) | 5] + hs[29:]
+        _corpus[key] = hs
     return _corpus[key]
 
 
@@ -213,7 +218,11 @@ def check_cfg(run, rng, cfg, idx):
     run.count("configs")
     sh = shape(cfg)
     cats = [None] + list(cfg["cats"]) + ["nosuchcat"]
-    for cat in cats:
+    # a history: categories are visited in a generated order and the first one is visited again at the end, so that
+    # every lazily filled cache of the context is exercised in more than one order
+    rng.shuffle(cats)
+    cats = cats + [cats[0], None]
+    for visit, cat in enumerate(cats):
         mcat = cat if cat in cfg["cats"] else None
         ck = "none" if cat is None else "unknown" if mcat is None else "cat"
         exp_default = M.default_scheme(cfg, mcat)
@@ -278,7 +287,7 @@ def check_cfg(run, rng, cfg, idx):
             if s == "scram":
                 variants.append((costs[0], 1))
             if s == "bcrypt":
-                variants += [(c, 1) for c in costs] + [(costs[-1], 2), (costs[0], 2)]
+                variants += [(c, 1) for c in costs] + [(costs[-1], 2), (costs[0], 2), (costs[len(costs) // 2], 3)]
             if s == "phpass":
                 variants += [(costs[0], 1), (costs[-1], 1)]
             if s in ("sha256_crypt", "sha512_crypt"):
@@ -289,7 +298,8 @@ def check_cfg(run, rng, cfg, idx):
                 except ValueError:
                     continue
                 attr = first_claim(cfg, hs)
-                got_attr = ctx.identify(hs, category=cat)
+                hs_arg = hs.encode("ascii") if (visit + len(hs)) % 2 and hs.isascii() else hs
+                got_attr = ctx.identify(hs_arg, category=cat)
                 lab = pos_label(c, mn, mx) if c is not None else "n/a"
                 run.case((sh, ck, s, lab, "identify"), None)
                 if got_attr != attr:
@@ -300,7 +310,7 @@ def check_cfg(run, rng, cfg, idx):
                     run.count("shadowed_by_earlier_scheme")
                     continue
                 exp_nu = M.needs_update(cfg, s, mcat, hs, limits(s)) if s in ROUNDS else (M.deprecated(cfg, s, mcat) or M.own_flag(s, hs))
-                got_nu = ctx.needs_update(hs, category=cat)
+                got_nu = ctx.needs_update(hs_arg, category=cat)
                 run.case((sh, ck, s, lab, "needs_update", exp_nu), dict(config=kw, category=cat, hash=hs, model_needs_update=exp_nu))
                 run.count(f"needs_update:{lab}:{exp_nu}")
                 if got_nu is not exp_nu:
@@ -314,7 +324,7 @@ def check_cfg(run, rng, cfg, idx):
                 if r != (False, None):
                     run.violation("C04|verify_and_update|wrong-password", f"verify_and_update(wrong) returned {r!r}", dict(w0, hash=hs))
                 try:
-                    ok, new = ctx.verify_and_update(PW, hs, category=cat)
+                    ok, new = ctx.verify_and_update(PW, hs_arg, category=cat)
                 except Exception as e:
                     run.violation(f"C04|verify_and_update|raises|{type(e).__name__}", f"verify_and_update raised {e}", dict(w0, hash=hs, category=cat))
                     continue
